@@ -101,6 +101,9 @@ struct Sh {
     /// every byte the inner reader handed over / the inner writer accepted, in order
     delivered: Vec<u8>,
     sent: Vec<u8>,
+    /// the inner writer stages in `write` and commits in `flush()` / `shutdown()` (BufWriter, TLS record layer):
+    /// how many of the `sent` bytes a successful inner flush()/shutdown() has put on the wire
+    wire: usize,
     /// the inner reader returned 0 for an end-of-stream reason (`z` or exhausted script)
     genuine_eof: bool,
     rparked: Option<Waker>,
@@ -213,6 +216,7 @@ fn poll_w(sh: &Shared, cx: &mut Context<'_>, kind: u8, data: &[u8]) -> Poll<io::
                 s.log.push(format!("w{}:{n}", data.len()));
                 Poll::Ready(Ok(n))
             } else {
+                s.wire = s.sent.len();
                 if kind == 2 {
                     s.shutdowns_ok += 1;
                     s.sent_at_shutdown = Some(s.sent.len());
@@ -517,6 +521,8 @@ struct Mon {
     flush_parked: bool,
     /// bytes were accepted by poll_write while `flush_parked` and have not reached the inner stream yet
     stale_bytes: bool,
+    /// a poll_close returned Ready(Ok) before (later writes are a caller error)
+    closed_ok: bool,
 }
 
 struct World {
@@ -560,6 +566,7 @@ fn new_world() -> World {
             eof_reported: false,
             flush_parked: false,
             stale_bytes: false,
+            closed_ok: false,
         },
         wakers: (0..4).map(|i| Waker::from(Arc::new(TaskWaker(i)))).collect(),
         is_async: false,
@@ -893,6 +900,15 @@ impl World {
                         format!("ok {n}")
                     }
                     Ok(Some(Err(e))) => {
+                        // a refill is refused with the limit report only when the unread bytes have reached the limit
+                        // (implementation only: unread = delivered by the inner reader - handed to the caller)
+                        let unread = self.sh.borrow().delivered.len().saturating_sub(mon.taken.len());
+                        if e.kind() == io::ErrorKind::OutOfMemory && !mon.rlost && unread < mon.max {
+                            ex.fail(
+                                "C12:spurious-limit-report",
+                                format!("fill_read_buf refused with OutOfMemory but only {unread} unread bytes are buffered (limit {})", mon.max),
+                            );
+                        }
                         ex.tag(format!("fill:{}", err_kind(&e)));
                         format!("err {}", err_kind(&e))
                     }
@@ -918,6 +934,13 @@ impl World {
                             ex.fail(
                                 "C12:flush-incomplete",
                                 format!("flush_write_buf returned Ok but sent={} accepted={}", hex(&sent), hex(&mon.accepted)),
+                            );
+                        }
+                        let wire = self.sh.borrow().wire;
+                        if !mon.wlost && wire != sent.len() {
+                            ex.fail(
+                                "C12:flush-not-committed",
+                                format!("flush_write_buf returned Ok but the inner stream's flush() has committed only {wire} of the {} bytes it accepted", sent.len()),
                             );
                         }
                         format!("ok {n}")
@@ -1120,6 +1143,20 @@ impl World {
                 if k == 3 {
                     mon.wlost = true;
                 }
+                if ok && !mon.wlost && !(entry == 2 && mon.closed_ok) {
+                    let sh = self.sh.borrow();
+                    if sh.wire != sh.sent.len() {
+                        let what = if entry == 1 { "poll_flush" } else { "poll_close" };
+                        ex.fail(
+                            "C12:flush-not-committed",
+                            format!(
+                                "{what} returned Ready(Ok) but the inner stream's flush()/shutdown() has committed only {} of the {} bytes it accepted (a failed inner flush() was not retried)",
+                                sh.wire,
+                                sh.sent.len()
+                            ),
+                        );
+                    }
+                }
                 if ok && !mon.wlost {
                     let sh = self.sh.borrow();
                     if sh.sent != mon.accepted {
@@ -1136,6 +1173,9 @@ impl World {
                             ),
                         );
                     }
+                }
+                if ok && entry == 2 {
+                    mon.closed_ok = true;
                 }
                 ex.tag(format!("{}:{}", w[0], txt.split(' ').take(2).collect::<Vec<_>>().join("-")));
                 txt
@@ -1544,6 +1584,78 @@ fn gen_writer_stress(rng: &mut Rng, name: String) -> Case {
     Case { name, lines }
 }
 
+/// session 3: write, flush whose INNER flush() fails (after the inner write accepted everything), flush again with
+/// no write in between, optionally close — the retry must reach the inner flush() again
+fn gen_flush_retry(rng: &mut Rng, name: String) -> Case {
+    let base = *rng.pick(&[1usize, 3, 4, 16, 4096]);
+    let max = *rng.pick(&[4usize, 10, 64, 1000]);
+    let is_async = rng.chance(3, 4);
+    let mut items = vec![];
+    if rng.chance(1, 3) {
+        items.push("p".to_string());
+    }
+    items.push("w100".to_string());
+    if rng.chance(1, 3) {
+        items.push("p".to_string());
+    }
+    items.push("e".to_string());
+    for _ in 0..rng.below(3) {
+        items.push((*rng.pick(&["p", "e", "w100", "w100"])).to_string());
+    }
+    let kind = if is_async { *rng.pick(&["async", "asplit"]) } else { *rng.pick(&["sync", "ssplit"]) };
+    let mut lines = vec![format!("{kind} {base} {max} . {}{}", items.join(","), gen_style(rng))];
+    let mut next = 0u8;
+    let t = rng.below(3);
+    let mut payload = gen_payload(rng, &mut next);
+    if payload.is_empty() {
+        payload.push(0x81);
+    }
+    payload.truncate(max);
+    lines.push(if is_async { format!("pw {t} {}", hex(&payload)) } else { format!("write {}", hex(&payload)) });
+    for _ in 0..rng.range(2, 6) {
+        let t = rng.below(3);
+        lines.push(if is_async { format!("pfl {t}") } else { "wflush 9".to_string() });
+    }
+    if is_async {
+        lines.push(format!("pcl {t}"));
+        lines.push(format!("pcl {t}"));
+    } else {
+        lines.push("st".to_string());
+    }
+    Case { name, lines }
+}
+
+/// session 3: small limit, several refills with nothing consumed in between (the Vec grows to the limit), a PARTIAL
+/// consume, another refill — only the unread bytes count against the limit
+fn gen_refill_partial(rng: &mut Rng, name: String) -> Case {
+    let base = *rng.pick(&[1usize, 2, 3, 8]);
+    let max = *rng.pick(&[2usize, 4, 10, 16, 64]);
+    let mut items = vec![];
+    let mut next = 1u8;
+    for _ in 0..rng.range(3, 9) {
+        let k = *rng.pick(&[1usize, 2, 3, 5, 8, 20]);
+        let d: Vec<u8> = (0..k).map(|_| { let b = next; next = next.wrapping_add(1).max(1); b }).collect();
+        items.push(format!("d{}", hex(&d)));
+        if rng.chance(1, 6) {
+            items.push("p".to_string());
+        }
+    }
+    let kind = *rng.pick(&["sync", "ssplit"]);
+    let mut lines = vec![format!("{kind} {base} {max} {} .", items.join(","))];
+    for _ in 0..rng.range(2, 5) {
+        for _ in 0..rng.range(1, 4) {
+            lines.push("fill 9".to_string());
+        }
+        lines.push("fillbuf".to_string());
+        lines.push(format!("consume {}", rng.pick(&[1usize, 1, 2, 3])));
+        lines.push("fill 9".to_string());
+        if rng.chance(1, 2) {
+            lines.push(format!("read {}", rng.pick(&[1usize, 2, 100])));
+        }
+    }
+    Case { name, lines }
+}
+
 fn generate(tier: &str, rng: &mut Rng) -> Vec<Case> {
     let thorough = tier == "thorough";
     let n = if thorough { 60_000 } else { 4_000 };
@@ -1556,6 +1668,10 @@ fn generate(tier: &str, rng: &mut Rng) -> Vec<Case> {
             _ => gen_wellbehaved(rng, format!("w{i}")),
         };
         cases.push(c);
+    }
+    for i in 0..n / 20 {
+        cases.push(gen_flush_retry(rng, format!("fr{i}")));
+        cases.push(gen_refill_partial(rng, format!("rp{i}")));
     }
     // exhaustive small space: every (base, max) of the declared configuration grid x a fixed battery
     for &base in &[0usize, 1, 3, 16] {
